@@ -2,7 +2,7 @@
    body (Model/LowerProg.v): same memory, script time, real time and instruction log, through jumps in both
    directions.  Composition of the per-statement theorems (LowerSound, LowerJumps) over [lower_body]. *)
 From TV Require Import Base.I32 Base.F32 Model.Ops Model.Expr Model.Lower Model.LowerSem Model.LowerProg
-  Proofs.LowerSound Proofs.LowerShape Proofs.LowerJumps Proofs.LowerStatic Proofs.LowerArgs.
+  Proofs.LowerSound Proofs.LowerShape Proofs.LowerJumps Proofs.LowerStatic Proofs.LowerArgs Proofs.LowerArgsTern.
 Open Scope Z_scope.
 
 (* ---------------- pst bookkeeping ---------------- *)
@@ -483,7 +483,7 @@ Section Sim.
   (* the statements covered by the whole-body theorem: assignments (any compound operator over jump-free
      right-hand sides; ternaries with plain `=`), single-variable declarations with initialiser, scope ends, empty
      statements, conditional, counting and unconditional jumps to user labels, labels, interrupts, instruction calls
-     with jump-free arguments (complex ones go through temporaries) *)
+     with jump-free or ternary arguments (complex ones go through temporaries) *)
   (* a declared variable with a jump-free initialiser *)
   Definition wfvar (n0 : nat) (x : nat * option expr) : Prop :=
     (fst x < n0)%nat /\ exists e, snd x = Some e /\ locals_below n0 e = true /\ wt_pure [] e = true.
@@ -497,7 +497,7 @@ Section Sim.
     | SCondJmp k (CPredecCmp v op) l jt => var_below n0 v /\ user l
     | SJmp l jt => user l
     | SLabel l => user l
-    | SCall opc args => Forall (fun e => wt_pure [] e = true /\ locals_below n0 e = true) args
+    | SCall opc args => Forall (fun e => wt_tern [] e = true /\ locals_below n0 e = true) args
     | SInterrupt _ => True
     | SNop => True
     | SScopeEnd d => (d < n0)%nat
@@ -514,15 +514,23 @@ Section Sim.
   Qed.
 
   Lemma args_wf_te n0 te args : te_agree n0 [] te ->
-    Forall (fun e => wt_pure [] e = true /\ locals_below n0 e = true) args ->
-    Forall (fun e => wt_pure te e = true /\ locals_below n0 e = true) args.
+    Forall (fun e => wt_tern [] e = true /\ locals_below n0 e = true) args ->
+    Forall (fun e => wt_tern te e = true /\ locals_below n0 e = true) args.
   Proof.
     intros Ha H. eapply Forall_impl; [|exact H]. intros e [Hw Hb]. split; [|exact Hb].
-    rewrite (agree_wt rty lty n0 [] te Ha e Hb). exact Hw.
+    rewrite (agree_wt_tern rty lty n0 [] te Ha e Hb). exact Hw.
+  Qed.
+
+  Lemma args_nonan_te n0 te m args : te_agree n0 [] te ->
+    Forall (fun e => wt_tern [] e = true /\ locals_below n0 e = true) args ->
+    forallb (nonan_tb T libm rty lty diff m) args = true -> Forall (nonan_t T libm rty lty diff te m) args.
+  Proof.
+    intros Ha H Hn. rewrite Forall_forall in *. intros e Hin. rewrite forallb_forall in Hn.
+    destruct (H e Hin) as [_ Hb]. eapply nonan_tb_sound; [exact Ha | exact Hb | exact (Hn e Hin)].
   Qed.
 
   Lemma args_eval_te n0 te m args : te_agree n0 [] te ->
-    Forall (fun e => wt_pure [] e = true /\ locals_below n0 e = true) args ->
+    Forall (fun e => wt_tern [] e = true /\ locals_below n0 e = true) args ->
     mapM (eval_e m) args = mapM (eval_s te m) args.
   Proof.
     intros Ha H. apply mapM_ext. intros e Hin. rewrite Forall_forall in H. destruct (H e Hin) as [_ Hb].
@@ -746,8 +754,10 @@ Section Sim.
       destruct (mapM (eval_e (p_mem (wait t st))) args) as [vs| | |] eqn:Ev; cbn [obind] in Hs; try discriminate.
       inversion Hs; subst m' j lg. cbn [mode_of logged]. rewrite wait_mem in Ev |- *.
       rewrite (args_eval_te n0 (te s) (p_mem st) args Ha Hwf) in Ev.
-      destruct (args_sound T libm avail auto_casts rty lty diff t mask no_sigil_intrinsics HT n0 fuel args s c la ds sa El
-                  (args_wf_te n0 (te s) args Ha Hwf) Hn (p_mem st) vs Hfr Ev) as [m1 [Hrp [Hread [_ [Hfree [Hg Ht]]]]]].
+      cbn [LowerProg.stmt_nonan] in Hnn. rewrite wait_mem in Hnn.
+      destruct (args_sound_tern T libm avail auto_casts rty lty diff t mask no_sigil_intrinsics HT H2 n0 fuel args s c la ds sa El
+                  (args_wf_te n0 (te s) args Ha Hwf) Hn (p_mem st) vs Hfr (args_nonan_te n0 (te s) (p_mem st) args Ha Hwf Hnn) Ev)
+        as [m1 [Hrp [Hread [_ [Hfree [Hg Ht]]]]]].
       destruct (args_static avail auto_casts rty lty t mask no_sigil_intrinsics fuel args s c la ds sa El) as [Hat [Hio [_ [_ [_ _]]]]].
       split; [|split; [exact Hg|split; [exact Ht|eapply fresh_mono; eassumption]]].
       intros cmp.
@@ -758,7 +768,7 @@ Section Sim.
       rewrite (wblk_entry T libm lty dsel t mask _ st cmp Hatw Hx). rewrite wblk_app.
       rewrite (wblk_steady T libm lty dsel t mask None Hr c Exec (wait t st) cmp Hat Hio I (wait_time t st Hle) I).
       rewrite wait_mem.
-      destruct (cps_blk T libm lty c (p_mem st) Exec m1 (fun rest cmp0 => ex_intro _ cmp0 (run_fwd_pure T libm lty c (p_mem st) m1 rest cmp0 Hrp)) cmp) as [c' Eb].
+      destruct (cps_blk T libm lty c (p_mem st) Exec m1 Hrp cmp) as [c' Eb].
       rewrite Eb. exists c'. cbn [app LowerProg.wblk].
       rewrite (wait_at t (set_mem (wait t st) m1) (wait_time t st Hle)). rewrite Hr. cbn [negb p_mem set_mem].
       rewrite Hread. rewrite wblk_frees. cbn [p_mem add_log set_mem]. rewrite Hfree. reflexivity.
